@@ -76,6 +76,11 @@ def check_built(ctx, case):
     inputs = [v]
     if dots == 0 and (p, q) == (1, 1):
         inputs += [base, float(base)]  # the bare base value as written by users (int 4 as well as 4.0)
+    # analysing near-identical floats first (float noise of a sum/difference) must not change what the exact value gives
+    import math
+    for nb in (math.nextafter(v, math.inf), math.nextafter(v, -math.inf), v * (1 + 1e-11), v * (1 - 1e-11), v * (1 + 3e-13)):
+        ctx.ok("determine", value.determine, nb)
+    inputs.append(v)
     for x in inputs:
         r = ctx.ok("determine", value.determine, x)
         if not failed(r):
@@ -266,6 +271,8 @@ def sub_tuplets(ctx, shard, n):
 
 
 COUNTS = list(range(-10, 201))
+BIG_COUNTS = [2 ** 53 + 1, 2 ** 53 + 3, 10 ** 17 + 1, 10 ** 17 + 2, 3 * 2 ** 60, 3 * 2 ** 60 + 1, 6 * 10 ** 20 + 3, 10 ** 30 + 5, 3 ** 40, 3 ** 40 + 1,
+              -(10 ** 20), 2 ** 64 - 1, 2 ** 64 + 1]
 
 
 def sub_meters_enum(ctx, shard, n):
@@ -274,10 +281,10 @@ def sub_meters_enum(ctx, shard, n):
         # every unit with a few counts, and every count with the interesting units
         key_units = [2 ** k for k in range(13)] + [0, -1, -2, -4, -8, 3, 5, 6, 7, 9, 10, 12, 24, 48, 96, 100, 1000, 4095,
                      2 ** 53, 2 ** 53 + 2, 2 ** 70, 2 ** 70 + 2, 2 ** 100 + 2 ** 40, 2 ** 200]
-        cases = [[c, u] for u in units for c in (1, 6, 7)] + [[c, u] for c in COUNTS for u in key_units]
+        cases = [[c, u] for u in units for c in (1, 6, 7)] + [[c, u] for c in COUNTS + BIG_COUNTS for u in key_units]
         bound = "units -64..4096 x counts {1,6,7}; counts -10..200 x %d units" % len(key_units)
     else:
-        cases = [[c, u] for u in units[shard::n] for c in COUNTS]
+        cases = [[c, u] for u in units[shard::n] for c in COUNTS + BIG_COUNTS]
         bound = "units -64..4096 x counts -10..200"
     if shard == 0:
         ctx.exhaustive("meters: integer beat units x counts", bound, len(cases) if ctx.quick else len(units) * len(COUNTS))
@@ -300,7 +307,8 @@ def _unit_strategy():
 
 
 def sub_meters_random(ctx, shard, n):
-    strat = st.tuples(st.sampled_from(COUNTS), _unit_strategy()).map(lambda t: [t[0], _enc(t[1])])
+    counts = st.sampled_from(COUNTS) | st.sampled_from(BIG_COUNTS) | st.integers(-10 ** 25, 10 ** 25)
+    strat = st.tuples(counts, _unit_strategy()).map(lambda t: [t[0], _enc(t[1])])
     ctx.given("meter", check_meter, strat, 2000 if ctx.quick else 12500)
 
 
